@@ -101,6 +101,12 @@ def rebuild(verbose=True):
         if r.returncode != 0 or not _so_present():
             sys.stderr.write(r.stdout[-4000:])
             raise HarnessError("build of the Cython extensions failed")
+        # cythonize leaves its intermediate build tree in <repo>/src/build: remove it (it is not part of the repository)
+        bdir = os.path.join(REPO, "src", "build")
+        tracked = subprocess.run(["git", "-C", REPO, "ls-files", "--error-unmatch", "src/build"], stdout=subprocess.DEVNULL,
+                                 stderr=subprocess.DEVNULL).returncode == 0
+        if os.path.isdir(bdir) and not tracked:
+            shutil.rmtree(bdir, ignore_errors=True)
         with open(stamp, "w") as f:
             f.write(want)
         if verbose:
